@@ -53,6 +53,34 @@ def auto(site, prog):
                 return "SlotVotes vector (validators.len() entries, SlotVotes::new) indexed by a validated signer (C09 O9.2) / own_id (< len by ValidatorEpochInfo::new)"
         if ix[0] == "agg" and ix[1].endswith("Range") and base[0] in ("local", "param") and False:
             return None
+    if site.kind == "index" and t is not None and t[0] == "call" and len(t[2]) == 2 and b.is_closure and "::{closure" in b.defpath:
+        # `(0..xs.len()).filter(|i| xs[*i])`, `.map(|i| xs[i])`: the closure's argument is drawn from a range that ends at the length of the
+        # very collection it indexes
+        base, ix = K.peel(t[2][0]), K.peel(t[2][1])
+        while isinstance(ix, tuple) and ix and ix[0] in ("deref", "ref") and len(ix) > 1:
+            ix = ix[1]
+        if isinstance(base, tuple) and base and base[0] == "upvar" and isinstance(ix, tuple) and ix and ix[0] == "param":
+            parent = prog.bodies.get(b.defpath.rsplit("::{closure", 1)[0])
+            if parent is not None:
+                for c in parent.calls():
+                    if c.name.rsplit("::", 1)[-1] not in ("filter", "map", "filter_map", "for_each", "all", "any", "find", "take_while", "skip_while", "position", "flat_map", "inspect"):
+                        continue
+                    ts = [parent.operand_term(a) for a in c.args]
+                    cl = [x for x in ts if isinstance(x, tuple) and x and x[0] == "closure" and x[1] == b.defpath]
+                    if not cl:
+                        continue
+                    cap = dict(cl[0][2]).get(base[1])
+                    rng = [x for x in ts if isinstance(x, tuple) and x and x[0] == "agg" and str(x[1]).endswith("ops::range::Range")]
+                    if cap is None or not rng:
+                        continue
+                    end = dict(rng[0][3]).get("end")
+                    if isinstance(end, tuple) and end and end[0] == "call" and end[1].rsplit("::", 1)[-1] == "len" and end[2] and K.peel(end[2][0]) == K.peel(cap):
+                        return "index drawn from 0..len() of the very collection it indexes"
+    if site.kind == "assert" and site.what == "Overflow:Sub" and t is not None:
+        a, c = K.peel(t[1][0]), K.peel(t[1][1])
+        # x - x % c  (and x - (x & m)): the subtrahend never exceeds x
+        if isinstance(c, tuple) and c and c[0] == "bin" and (c[1].startswith("Rem") or c[1] == "BitAnd") and (K.peel(c[2]) == a or (c[1] == "BitAnd" and K.peel(c[3]) == a)):
+            return "x - (x %% c) / x - (x & m): the subtrahend is at most x"
     if site.kind in ("assert",) and site.what in ("DivisionByZero", "RemainderByZero") and site.cond is not None:
         c = site.cond            # Eq(divisor, 0), expected false
         if c[0] == "bin" and c[1] == "Eq":
